@@ -48,7 +48,8 @@ SentinelPool == {<<"ID_ctxCanceled", "L_ctxCanceled">>, <<"ID_osErrNotExist", "L
 ErrnoPool == {<<"ENOENT", "L_errno_ENOENT">>, <<"EACCES", "L_osErrPermission">>,
               <<"EEXIST", "L_errno_EEXIST">>, <<"EINTR", "L_errno_EINTR">>}
 KeyPool == {<< <<PW(1)>> >>, << <<PW(2)>>, <<PW(1)>> >>}
-LinkPool == {<< <<PW(1)>>, <<PW(2)>> >>, << <<>>, <<PW(1)>> >>, << <<PW(2)>>, <<>> >>, << <<>>, <<>> >>}
+LinkPool == {<< <<PW(1)>>, <<PW(2)>> >>, << <<>>, <<PW(1)>> >>, << <<PW(2)>>, <<>> >>, << <<>>, <<>> >>,
+             << <<PW(1), "PCT">>, <<"PCT", PW(2)>> >>}
 \* tag values: strings, a value-less tag (NILV), a value marked safe (SAFEV), an integer
 TagPool == {<< <<PW(1)>>, <<PW(2)>> >>, << <<PW(2)>>, <<PW(1)>>, <<PW(1)>>, <<PW(3)>> >>,
             << <<PW(1)>>, <<"NILV">>, <<PW(2)>>, <<"SAFEV", PW(3)>> >>, << <<PW(3)>>, <<"n5">> >>}
@@ -109,6 +110,9 @@ Step1(sl) ==
         Take(Step("Newf", p[2], E, E, E,
                   <<Part("lit", s, 0), Part("lit", <<SEP>>, 0), Part("w", E, p[1]), Part("lit", <<SP>>, 0),
                     Part("err", E, p[2])>>, 0, E))
+  \* unregistered leaf with an ErrorKeyMarker
+  \/ On("ULeaf") /\ \E d \in FirstFree(sl) : \E s \in SH : \E t \in SH2 :
+        Take(Step("ULeaf", d, E, s, <<<<"uKeyLeaf">>, t>>, E, 0, E))
   \* unregistered leaf whose SafeDetails() returns a caller-supplied string
   \/ On("USafeDet") /\ \E d \in FirstFree(sl) : \E s \in SH : \E t \in SH2 :
         Take(Step("ULeaf", d, E, s, <<<<"uSafeDetLeaf">>, t>>, E, 0, E))
